@@ -117,7 +117,7 @@ func (s *streamHTTP) SendMsg(m interface{}) (err error) {
 
 	cur := reply.ProtoReflect()
 	for _, fd := range s.method.resp {
-		cur = cur.Mutable(fd).Message()
+		cur = cur.Mutable(ownField(cur, fd)).Message()
 	}
 	msg := cur.Interface()
 
@@ -221,7 +221,7 @@ func (s *streamHTTP) decodeRequestArgs(args proto.Message) (int, error) {
 
 	cur := args.ProtoReflect()
 	for _, fd := range s.method.body {
-		cur = cur.Mutable(fd).Message()
+		cur = cur.Mutable(ownField(cur, fd)).Message()
 	}
 	msg := cur.Interface()
 
@@ -575,7 +575,7 @@ func AsHTTPBodyReader(stream grpc.ServerStream, msg proto.Message) (body io.Read
 		return nil, fmt.Errorf("expected %s got %s", want, name)
 	}
 	for _, fd := range s.method.body {
-		cur = cur.Mutable(fd).Message()
+		cur = cur.Mutable(ownField(cur, fd)).Message()
 	}
 
 	if typ := cur.Descriptor().FullName(); typ != "google.api.HttpBody" {
@@ -615,7 +615,7 @@ func AsHTTPBodyWriter(stream grpc.ServerStream, msg proto.Message) (body io.Writ
 		return nil, fmt.Errorf("expected %s got %s", want, name)
 	}
 	for _, fd := range s.method.resp {
-		cur = cur.Mutable(fd).Message()
+		cur = cur.Mutable(ownField(cur, fd)).Message()
 	}
 
 	if typ := cur.Descriptor().FullName(); typ != "google.api.HttpBody" {
